@@ -2079,6 +2079,7 @@ impl Analyzable for Expression
 			{
 				Ok(queried_type)
 					if queried_type.can_be_sized()
+						&& queried_type.is_wellformed()
 						&& !typer.holds_opaque_structure(&queried_type) =>
 				{
 					Expression::SizeOf {
@@ -2088,7 +2089,6 @@ impl Analyzable for Expression
 				}
 				Ok(queried_type) =>
 				{
-					assert!(queried_type.is_wellformed(), "{queried_type:?}");
 					let error = Error::TypeLacksKnownSize {
 						queried_type,
 						location_of_query: location,
